@@ -33,3 +33,8 @@ def run(ctx):
         ctx, PID, "props/C09.v", make_work,
         "magic-set identity with the null-safe join back (plain = refuted), pushing the dependent join through filter/projection/cross product/distinct, EXISTS as semi/anti/mark join, scalar aggregate decorrelation (count refuted), IN as two-valued mark join (refuted with NULLs), CTE inlining and materialization scans agree",
         "queries with scalar, EXISTS and IN subqueries (correlated through filters and projections, NULL and duplicate outer values, empty subquery results), CTEs (plain and MATERIALIZED) whose reference semantics is the inlined definition; distinct = distinct (SQL text, config)")
+
+
+def replay(ctx, payload):
+    from . import sqlrun
+    return sqlrun.replay(ctx, payload)
